@@ -14,6 +14,14 @@ the per-box cell literals b<i>_<cell>, are enumerated with blocking clauses.  Re
 lists and models are pulled back to the lattice and judged by TLC (RectSearchTrace): missing / spurious models,
 sat iff feasible, returned rectangles = boxes of an admitted shape meeting the bound.
 
+Growth (thorough tier, evidence key coverage.from_allocation, no further property claim): the front end of the rect
+stage.  RectSearch's "alloc" mode (FromAllocation / LoadAllocation, invariants FrontEndOK and EndToEndExact) is
+model-checked and emits (allocation, module, k) records; each becomes an Allocation YAML document plus a netlist YAML
+document (or none: get_netlist derives one) that go through rect_io.get_alloc / get_netlist / select_box, and the
+improvement loop of rect.main() (`dif = last`, `while last[0] > 0 and q1 > quality`) re-implemented around the real
+rect.solve.  TLC judges the InputProblem select_box produced (same cells, occupancy = ratio, disjoint) and the
+end-to-end contract (a module allocated with ratio 1 exactly on a k-STOG gets exactly that shape, zero error).
+
 A seeded random driver adds larger / irregular grids (to 4x3 in quick, 5x4 in thorough; random spacing, origin,
 cell order, occupancy denominators 2, 4, 10, k up to 4) on the same path; its bounds are planned with a small Python enumerator
 (input planning only -- TLC is the judge).
@@ -36,6 +44,7 @@ VACUOUS = -10 ** 8          # a bound every shape meets: the cost constraint is 
 RATIO = 2.0                 # minimum-error mode (rect.py --minerr, the default)
 MAX_MODELS = 40000
 MAX_LOOP = 5
+PUB = ("kind", "cells", "k", "den", "emb", "path", "plan", "alloc", "mod", "netlist")     # what a replay file holds
 # carrier.factor per embedding (main() uses 10000): chosen so that the integer cell weights neither vanish (tiny)
 # nor overflow TLC's 32-bit integers (big)
 FACTOR = {"int": 10000, "flt": 10000, "half": 10000, "dec": 10000, "third": 10000, "off": 10000,
@@ -62,7 +71,7 @@ def _solve_once(p):
                                 theoreticalBestArea=0.0, gm=None)
     if p["path"] == "select_box":
         from tools.rect.rect_io import select_box
-        car.input_problem, car.selbox = select_box("M", p["ifile"])
+        car.input_problem, car.selbox = select_box(p.get("module", "M"), p["ifile"])
     else:
         car.input_problem, car.selbox = [tuple(c) for c in p["cells"]], "M"
     out = {}
@@ -76,11 +85,12 @@ def _solve_once(p):
         out["wsel"] = [R.area(car, b, True) for b in car.blocks]
         out["wreal"] = [R.area(car, b, False) for b in car.blocks]
         try:
-            last, rects, _q = R.solve(car, p["ifile"], RATIO, (p["bound"], 1), p["k"])
+            last, rects, q = R.solve(car, p["ifile"], RATIO, (p["bound"], 1), p["k"])
         except Exception as e:  # solve is defined on every grid / bound of the quantifier
             out["exc"] = f"{type(e).__name__}: {e}"
             return out
     out["ret"] = [int(last[0]), int(last[1])]
+    out["quality"] = float(q)
     out["rects"] = [list(r) for r in rects]
     # every model of the formula solve() built, projected on the per-box cell literals
     sm = made[-1]
@@ -124,6 +134,8 @@ def _embed(case):
 
 def run_case(case):
     """-> observation of one lattice case under one embedding: pulled-back coordinate lists, weights and events."""
+    if case["kind"] == "alloc":
+        return run_alloc_case(case)
     emb, cells, ifile = _embed(case)
     base = {"cells": cells, "ifile": ifile, "factor": FACTOR[case["emb"]], "k": case["k"], "path": case["path"]}
     obs = {"events": []}
@@ -157,6 +169,148 @@ def run_case(case):
             break
         bound = o["ret"][0]          # main(): dif = last
     return obs
+
+
+# ------------------------------------------------------------------------------------------------ from an allocation
+MAX_ALLOC_LOOP = 60
+
+
+def _front_end(p):
+    """rect.main()'s front end in a pristine process: Allocation YAML (+ netlist YAML or None) -> get_alloc,
+    get_netlist, the module names main() collects, the hard / fixed flags it tests."""
+    from frame.geometry.geometry import Rectangle
+    from tools.rect.rect_io import get_alloc, get_netlist
+    Rectangle.undefine_epsilon()
+    with contextlib.redirect_stdout(io.StringIO()):
+        ifile = get_alloc(p["alloc_file"])
+        netlist = get_netlist(p["net_file"], p["alloc_file"])
+    names = set()
+    for r in ifile["Rectangles"]:               # as main() does
+        for bname in r:
+            for lst in r[bname][1]["mod"]:
+                for m in lst:
+                    names.add(m)
+    idx = {m.name: i for i, m in enumerate(netlist.modules)}
+    flags = {n: [int(bool(netlist.modules[idx[n]].is_hard)), int(bool(netlist.modules[idx[n]].is_fixed))]
+             for n in names if n in idx}
+    return {"ifile": ifile, "names": sorted(names), "flags": flags, "netlist_modules": sorted(idx)}
+
+
+def run_alloc_case(case):
+    """An allocation document + a netlist document -> rect_io -> the improvement loop of rect.main() around the real
+    rect.solve (main() itself cannot run on Linux: Carrier() loads a Windows DLL for the greedy seed, so the loop
+    starts from dif = (1, 1) instead of the greedy one-box optimum).  Every solve() call in a fresh process."""
+    import os
+    import tempfile
+    emb = EMBEDDINGS[case["emb"]]
+    den = case["den"]
+    d = tempfile.mkdtemp(prefix="c08alloc")
+    lines, areas, mx, my = [], {}, {}, {}
+    for c in case["alloc"]:
+        cx, cy, w, h = emb.rect(c)
+        occ = {f"M{m + 1}": (n / den) for m, n in enumerate(c[6]) if n >= 0}
+        for name, v in occ.items():
+            a = float(w) * float(h) * v
+            areas[name] = areas.get(name, 0.0) + a
+            mx[name] = mx.get(name, 0.0) + a * cx
+            my[name] = my.get(name, 0.0) + a * cy
+        lines.append("- [[%r, %r, %r, %r], {%s}]" % (cx, cy, w, h, ", ".join(f"{k}: {v!r}" for k, v in occ.items())))
+    af = os.path.join(d, "alloc.yaml")
+    with open(af, "w") as f:
+        f.write("\n".join(lines) + "\n")
+    nf = None
+    if case["netlist"] == "file":
+        nf = os.path.join(d, "netlist.yaml")
+        mods = []
+        for name in sorted(areas):
+            a = areas[name]
+            ctr = [mx[name] / a, my[name] / a] if a > 0 else list(emb.rect(case["alloc"][0])[:2])
+            mods.append("  %s: {area: %r, center: [%r, %r]}" % (name, max(a, float(emb.area(1)) / 4), float(ctr[0]), float(ctr[1])))
+        with open(nf, "w") as f:
+            f.write("Modules: {\n" + ",\n".join(mods) + "\n}\nNets: []\n")
+    obs = {"events": [], "complete": 0}
+    st, fe = _fresh_child(_front_end, {"alloc_file": af, "net_file": nf}, 300)
+    if st == "harness_error":
+        # an exception inside get_alloc / get_netlist on a valid allocation document is an observation, not a harness bug
+        obs["events"].append({"bound": 1, "exc": "front end: " + str(fe).splitlines()[0][:300]})
+        return obs
+    if st != "ok":
+        obs["events"].append({"bound": 1, "status": st, "detail": str(fe)[:300]})
+        return obs
+    name = f"M{case['mod']}"
+    obs["names"], obs["flags"] = fe["names"], fe["flags"].get(name, [-1, -1])
+    base = {"cells": None, "ifile": fe["ifile"], "factor": FACTOR[case["emb"]], "k": case["k"], "path": "select_box",
+            "module": name}
+    bound, quality = 1, 0.0
+    for it in range(MAX_ALLOC_LOOP):
+        st, o = _fresh_child(_solve_once, dict(base, bound=bound), 300)
+        if st == "harness_error":
+            raise RuntimeError(o)
+        if st != "ok":
+            obs["events"].append({"bound": bound, "status": st, "detail": str(o)[:500]})
+            break
+        try:
+            if "xs" not in obs:
+                obs["xs"] = [emb.back_coord(v) for v in o["xs"]]
+                obs["ys"] = [emb.back_coord(v) for v in o["ys"]]
+                obs["wsel"], obs["wreal"] = o["wsel"], o["wreal"]
+                inp = []
+                for c in o["input"]:
+                    q = c[4] * den
+                    if abs(q - round(q)) > 1e-9:
+                        raise OffLattice(f"occupancy {c[4]!r}")
+                    inp.append([emb.back_coord(v) for v in c[:4]] + [int(round(q))])
+                obs["inp"] = inp
+            if "exc" in o:
+                obs["events"].append({"bound": bound, "exc": o["exc"]})
+                break
+            ev = {"bound": bound, "sat": int(len(o["rects"]) > 0), "ret": o["ret"][0],
+                  "rects": [[emb.back_coord(v) for v in r] for r in o["rects"]],
+                  "models": sorted(o["models"]), "full": o["full"]}
+        except OffLattice as e:
+            obs["events"].append({"bound": bound, "off": str(e)})
+            break
+        obs["events"].append(ev)
+        # main(): while last[0] > 0 and q1 > quality: quality = q1; boxes = tmpb; dif = last; solve again
+        if not (o["ret"][0] > 0 and o["quality"] > quality):
+            obs["complete"] = int(not ev["sat"])
+            break
+        quality = o["quality"]
+        bound = o["ret"][0]
+    import shutil
+    shutil.rmtree(d, ignore_errors=True)
+    return obs
+
+
+def alloc_cases(gen: list[dict], rng: random.Random) -> list[dict]:
+    """(allocation, module, k) records emitted by RectSearch in "alloc" mode -> document pairs for the real front end:
+    every record whose module region is a k-STOG (the end-to-end contract applies), a seeded sample of the others."""
+    recs = [g for g in gen if g["kind"] == "alloc"]
+    yes = [g for g in recs if g["stog"] == 1]
+    no = [g for g in recs if g["stog"] == 0]
+    yes = rng.sample(yes, min(len(yes), 700))
+    no = rng.sample(no, min(len(no), 150))
+    cases = []
+    for i, g in enumerate(yes + no):
+        netlist = "file" if i % 2 == 0 else "derived"
+        alloc = g["alloc"]
+        if netlist == "derived":
+            # without a netlist document get_netlist() derives one from the allocation and divides by the area
+            # accumulated so far: a module LISTED with ratio 0.0 in its first cells makes it raise ZeroDivisionError
+            # (reported separately, see zero_ratio_probe); here "0 elsewhere" is written as "not listed"
+            alloc = [c[:6] + [[-1 if n == 0 else n for n in c[6]]] for c in alloc]
+        cases.append({"kind": "alloc", "alloc": alloc, "mod": g["mod"], "cells": g["cells"], "k": g["k"], "den": g["den"],
+                      "emb": ALL[i % len(ALL)], "path": "select_box", "plan": ["alloc", 1], "netlist": netlist,
+                      "stog": g["stog"]})
+    return cases
+
+
+def zero_ratio_probe(case):
+    """Diagnostic (no C08 verdict): get_netlist(None, allocation) on a document that lists the module with ratio 0.0."""
+    c = dict(case, netlist="derived")
+    obs = run_alloc_case(dict(c, k=1))
+    ev = obs["events"][0] if obs["events"] else {}
+    return ev.get("exc", "")
 
 
 # ------------------------------------------------------------------------------------------------ planning
@@ -275,7 +429,7 @@ def tlc_cases(gen: list[dict], tier: str, rng: random.Random) -> list[dict]:
             for en in ALL:
                 cases.append(dict(base, cells=cells, emb=en, path="select_box", plan=["single", VACUOUS]))
             cases.append(dict(base, cells=cells[::-1], emb="flt", path="direct", plan=["single", VACUOUS]))
-        else:
+        elif g["kind"] == "solve":
             si += 1
             embs = [ALL[si % len(ALL)]] if tier == "quick" or len(g["cells"]) >= 9 else [ALL[si % len(ALL)], ALL[(si + 3) % len(ALL)]]
             for en in embs:
@@ -330,7 +484,7 @@ def decide(ctx: Ctx, cases: list[dict]):
     results = run_cases(run_case, cases, nproc=16, case_timeout=900)
     traces, owners = {}, {}
     for c, (st, obs) in zip(cases, results):
-        pub = {k: c[k] for k in ("cells", "k", "den", "emb", "path", "plan")}
+        pub = {k: c[k] for k in PUB if k in c}
         if st != "ok":
             ctx.violation("no_result", pub, {"status": st}, _features(c, "no_result"))
             continue
@@ -349,7 +503,12 @@ def decide(ctx: Ctx, cases: list[dict]):
         exact = int(c["emb"] in EXACT and c["den"] in (1, 2, 4, 8))
         t = {"cells": c["cells"], "k": c["k"], "den": c["den"], "ratio": int(RATIO), "fnum": fr.numerator,
              "fden": fr.denominator, "exact": exact, "xs": obs["xs"], "ys": obs["ys"],
-             "wsel": obs["wsel"], "wreal": obs["wreal"], "events": evs}
+             "wsel": obs["wsel"], "wreal": obs["wreal"], "events": evs,
+             # front end (kind "alloc"): the allocation, the module, the InputProblem select_box produced, and whether
+             # the improvement loop ran to its end (last call unsat)
+             "kind": "alloc" if c["kind"] == "alloc" else "plain", "alloc": c.get("alloc", []), "mod": c.get("mod", 0),
+             "inp": obs.get("inp", []), "complete": obs.get("complete", 0),
+             "found": int(c["kind"] != "alloc" or (f"M{c.get('mod')}" in obs.get("names", []) and obs.get("flags") == [0, 0]))}
         key = digest(t)
         if key not in traces:
             t["id"] = key
@@ -364,9 +523,12 @@ def decide(ctx: Ctx, cases: list[dict]):
         info = {i["l"]: i for i in v.get("info", [])}
         for (l, clause) in v["fails"]:
             for c in owners[key]:
-                pub = {k: c[k] for k in ("cells", "k", "den", "emb", "path", "plan")}
+                pub = {k: c[k] for k in PUB if k in c}
                 if l == 0:
-                    detail = {"wsel": t["wsel"], "wreal": t["wreal"], "fnum": t["fnum"], "fden": t["fden"]}
+                    detail = {"wsel": t["wsel"], "wreal": t["wreal"], "fnum": t["fnum"], "fden": t["fden"], "inp": t["inp"]}
+                elif l > len(t["events"]):
+                    detail = {"final_boxes": next((e["rects"] for e in reversed(t["events"]) if e["sat"]), []),
+                              "calls": len(t["events"])}
                 else:
                     e = t["events"][l - 1]
                     detail = {"call": l, "bound": e["bound"], "sat": e["sat"], "rects": e["rects"], "ret": e["ret"],
@@ -385,6 +547,22 @@ def decide(ctx: Ctx, cases: list[dict]):
     ctx.extra["loops_ending_unsat_after_sat"] = sum(1 for k, t in loops if len(t["events"]) > 1 and t["events"][-1]["sat"] == 0)
     ctx.extra["calls_sat"] = sum(e["sat"] for t in traces.values() for e in t["events"])
     ctx.extra["calls_unsat"] = sum(1 - e["sat"] for t in traces.values() for e in t["events"])
+    al = [(k, t) for k, t in traces.items() if t["kind"] == "alloc"]
+    if al:
+        own = lambda k: owners[k][0]
+        ctx.extra["from_allocation"] = {
+            "documents": sum(len(owners[k]) for k, _ in al),
+            "traces": len(al),
+            "netlist_file": sum(1 for k, _ in al if own(k)["netlist"] == "file"),
+            "netlist_derived": sum(1 for k, _ in al if own(k)["netlist"] == "derived"),
+            "solve_calls": sum(len(t["events"]) for _, t in al),
+            "loops_run_to_unsat": sum(t["complete"] for _, t in al),
+            "front_end_clauses_judged": len(al),
+            "end_to_end_contract_applied": sum(1 for k, t in al if own(k).get("stog") == 1 and t["complete"] == 1),
+            "module_region_not_a_kstog": sum(1 for k, _ in al if own(k).get("stog") == 0),
+            "embeddings": sorted({own(k)["emb"] for k, _ in al}),
+            "grids": sorted({f"{len(t['xs']) - 1}x{len(t['ys']) - 1}" for _, t in al}),
+        }
     ctx.extra["traces_distinct"] = len(traces)
     ctx.extra["solve_calls"] = sum(len(t["events"]) * len(owners[k]) for k, t in traces.items())
     ctx.extra["models_enumerated"] = sum(len(e["models"]) * len(owners[k]) for k, t in traces.items() for e in t["events"])
@@ -414,9 +592,9 @@ def run(ctx: Ctx) -> int:
         decide(ctx, [c])
         return ctx.finish("model_checking", "replay of one recorded case")
     tier = ctx.tier
-    _model_check(ctx, f"RectSearch_mc_{tier}", ignore=("EmitGrid", "EmitSolve"))
+    _model_check(ctx, f"RectSearch_mc_{tier}", ignore=("EmitGrid", "EmitSolve", "EmitAlloc", "LoadAllocation"))
     if tier == "thorough":
-        _model_check(ctx, "RectSearch_mc_k4", ignore=("EmitGrid", "EmitSolve", "Start", "Call", "Iterate", "Stop"))
+        _model_check(ctx, "RectSearch_mc_k4", ignore=("EmitGrid", "EmitSolve", "EmitAlloc", "LoadAllocation", "Start", "Call", "Iterate", "Stop"))
     # negative run: the border exclusions as implemented today break EncSound at the design level
     neg = tlc.run_tlc(ctx, "RectSearch", "RectSearch_mc_defect", expect_ok=False, tag="negative")
     if "Invariant EncSound is violated" not in neg["stdout"]:
@@ -432,7 +610,20 @@ def run(ctx: Ctx) -> int:
     cases = tlc_cases(gen, tier, rng)
     n_tlc = len(cases)
     cases += random_cases(rng, 150 if tier == "quick" else 1000, tier)
+    probes = []
+    if tier == "thorough":
+        # growth: the front end of the rect stage (Allocation YAML + netlist YAML -> rect_io -> improvement loop)
+        _model_check(ctx, "RectSearch_mc_alloc", ignore=("EmitGrid", "EmitSolve", "EmitAlloc", "ChooseTrunk", "AddBranch", "EncBox", "Close"))
+        ac = alloc_cases(gen, rng)
+        cases += ac
+        probes = [c for c in ac if c["netlist"] == "file" and c["stog"] == 1][:24]
     decide(ctx, cases)
+    if probes:
+        out = run_cases(zero_ratio_probe, probes, nproc=8)
+        hits = [v for st, v in out if st == "ok" and v]
+        ctx.extra["from_allocation"]["zero_ratio_probe"] = {
+            "what": "get_netlist(None, allocation) on documents that list the module with ratio 0.0 (diagnostic, no C08 verdict)",
+            "documents": len(probes), "raised": len(hits), "sample": hits[:1]}
     ctx.extra["embeddings"] = ALL
     ctx.extra["cases_from_tlc"] = n_tlc
     ctx.extra["cases_random"] = len(cases) - n_tlc
@@ -441,6 +632,7 @@ def run(ctx: Ctx) -> int:
         "rect.Carrier() cannot be constructed on Linux (Windows DLL): the carrier is a SimpleNamespace with the same fields, filled by the real definecoords(); ifile['Width'/'Height'] = bounding box of the grid, as get_alloc() computes it",
         "minimum-error mode: ratio 2.0; a module to normalise occupies something (all-zero occupancy is outside the quantifier: main() never asks for it and solve() divides by the total occupied area)",
         "grids are given both as corner tuples (input_problem, corners shared exactly) and as centre/size documents through rect_io.select_box (what get_alloc() produces from an allocation file), under every embedding",
+        "from_allocation: rect.main() cannot run on Linux (Carrier() loads the greedy seed from a Windows DLL), so its improvement loop is re-implemented in the harness around the real solve(), started at dif = (1, 1) instead of the greedy one-box optimum; allocation documents have non-negative coordinates (FRAME's rectangle reader rejects negative centres)",
         "cost = ratio * occupied area - area over the integer cell weights rect.area() returns; the weights themselves are checked against the lattice areas up to the int() truncation",
     ]
     return ctx.finish(
